@@ -1,7 +1,7 @@
 (* Extract.v — extraction of the executable model to OCaml (ExtrOcamlBasic only). *)
 Require Extraction.
 Require Import ExtrOcamlBasic.
-From QCo.Model Require Import Base Consts Frozen DType Time Codec Policy Writer Reader Spec.
+From QCo.Model Require Import Base Consts Frozen DType Time Codec Policy Writer Reader Spec Words.
 Extraction Language OCaml.
 Extraction "qco_model.ml"
   all_dtypes hdr phys ubits sdt valid representable to_u of_u to_s of_s to_bytes of_bytes
@@ -13,4 +13,11 @@ Extraction "qco_model.ml"
   r_init r_step r_do r_run decode_file drain_iter
   enc_file dec_file file_nums chunk_nums chunk_unsigneds
   st2ts ts2st ts96_new st_ok
-  choose_unoptimized choose_max_n_prefixes pgcd gcd_sorted.
+  choose_unoptimized choose_max_n_prefixes pgcd gcd_sorted
+  wr_default wr_bit_size wr_byte_size wr_write_one wr_write wr_write_diff wr_write_usize
+  wr_write_aligned_bytes wr_finish_byte wr_write_varint wr_overwrite wr_drain_bytes
+  bw_extend bw_truncate_left
+  rd_bit_idx rd_refresh rd_insufficient rd_read_one rd_read rd_read_diff
+  rd_unchecked_read_diff rd_unchecked_read_diff_u rd_seek_to rd_drain_empty_byte
+  rd_read_aligned_bytes
+  ct_default_prefix ct_from_sorted ct_search_tree ct_search.
